@@ -1,3 +1,5 @@
 package main
 
-func extractMore(pkgs map[string]*Pkg) {}
+func extractMore(pkgs map[string]*Pkg) {
+	extractV4Acc(pkgs[mod+"/dhcpv4"])
+}
